@@ -145,6 +145,36 @@ def gen_metal_reaction(rng):
     return mk(og, where), mk(oh, where_h), ["metal_quadruple" if 4 in (og, oh) else "metal_multiple"]
 
 
+def gen_aromatic_reaction(rng):
+    """a fully mapped reaction on an aromatic ring system (benzene, pyridine, furan, thiophene):
+    ring bonds are aromatic (1.5) on both sides, a side-chain bond X-Y is replaced by X-Z.  Gives
+    the legs through RDKit labels with a 1.5 component."""
+    import networkx as nx
+    ring = rng.choice([["C"] * 6, ["N"] + ["C"] * 5, ["O"] + ["C"] * 4, ["S"] + ["C"] * 4])
+    n = len(ring)
+    X, Y, Z = "C", rng.choice(["Cl", "Br", "O", "N"]), rng.choice(["O", "N", "S"])
+    syms = ring + [X, Y, Z]
+    total = len(syms)
+    aams = rng.sample(range(1, 3 * total), total)
+    order = list(range(total))
+    rng.shuffle(order)
+    attach = rng.choice([i for i in range(n) if ring[i] == "C"])
+    ring_edges = [(i, (i + 1) % n, 1.5) for i in range(n)]
+
+    def mk(extra):
+        g = nx.Graph()
+        for i in order:
+            g.add_node(i, symbol=syms[i], aam=aams[i])
+        es = ring_edges + [(attach, n, 1)] + extra
+        rng.shuffle(es)
+        for u, v, b in es:
+            if rng.random() < 0.5:
+                u, v = v, u
+            g.add_edge(u, v, bond=b)
+        return g
+    return mk([(n, n + 1, 1)]), mk([(n, n + 2, 1)]), ["aromatic_ring"]
+
+
 def gen_direct_its(rng, with_symbols=True, good=True):
     """ITS graph written down directly: random ids and orders, labels as tuples, lists or scalars"""
     n = rng.randint(0, 10)
@@ -485,6 +515,22 @@ def run(tier, seed):
         if k % 3 == 0:
             J, tags = gen_direct_its(rng, with_symbols=False, good=rng.random() < 0.7)
             cases.append(split_case(J, tags, via_object=rng.random() < 0.3))
+        if k % 7 == 2 and has_symbols(I):
+            # history on one ITS object: split / to_smiles, then prune in place, then split again —
+            # the second split must be the split of the graph the object holds NOW
+            from fgutils.its import ITS
+            obj = call_impl(ITS, I.copy())
+            if not isinstance(obj, ImplError):
+                call_impl(obj.split)
+                call_impl(obj.to_smiles)
+                pr = call_impl(obj.prune, radius=rng.randint(0, 2), insert_hydrogens=rng.random() < 0.5)
+                if not isinstance(pr, ImplError) and obj.graph.number_of_nodes() > 0:
+                    J = obj.graph
+                    out = call_impl(impl_split, J, obj)
+                    enc = enc_its(J)
+                    cases.append(Case([Atom("C10"), Atom("split"), enc], out, in_domain=True,
+                                      nontrivial_key=("split-after-prune", repr(enc)) if J.number_of_edges() > 0 else None,
+                                      tags=("op_split", "via_ITS.split", "after_split_then_prune_on_same_object") + tuple(label_tags(J))))
         # split_its∘get_its
         full = rng.random() < 0.75
         G, H, tags = c09.gen_reaction(rng, big=big, full=full, ood=None if rng.random() < 0.9 else rng.choice(["zero", "neg", "dup", "bond0"]))
@@ -494,6 +540,8 @@ def run(tier, seed):
             from fgutils.its import get_its
             if k % 10 == 0:
                 G, H, tags = gen_metal_reaction(rng)
+            elif k % 10 == 4:
+                G, H, tags = gen_aromatic_reaction(rng)
             else:
                 G, H, tags = c09.gen_valid_reaction(rng, nmax=14 if big else 9, full=rng.random() < 0.85)
             I = get_its(G, H)
